@@ -130,6 +130,7 @@ func (e *Engine) opQOpen(c *cursor) *Violation {
 			r.Query.Close()
 		}
 	}
+	e.logEnts("walk", seq)
 	set, dup := toSet(seq)
 	if dup {
 		return e.viol("query-set", op, "filter %s visits an entity twice", spec)
@@ -176,6 +177,7 @@ func (e *Engine) qclass(cached bool) string {
 // advanced: the open query moved to position pos (entity h).
 func (e *Engine) advanced(i int, h ecs.Entity) *Violation {
 	oq := e.Open[i]
+	e.logEnt(h)
 	q := e.S.Open[i]
 	if oq.Batch {
 		if !oq.ExpSet[h] {
